@@ -29,7 +29,7 @@ func init() {
 			"(11) collectLeases fails when listing the namespaces or a namespace's leases fails and returns the sum of the per-namespace key counts, the restore worker sends every processRestore error to the restore loop, whose collector returns the received error on every return reachable after the receive (other than past a nil test of that value), and RestoreNamespace enters restore mode before it restores; " +
 			"(12) revocationJob.Execute returns Revoke's error, and markLeaseIrrevocable files every live lease it is given in the irrevocable set before removing it from pending; revokeCommon removes a lease from the tracking sets (removeFromPending, Delete on pending / nonexpiring / irrevocable, identified by the field) only across the success of deleteEntry of the entry it loaded — a failed storage delete leaves the lease pending for the retry — and the functions that untrack at all are tabled (revokeCommon; removeFromPending; the two movers updatePendingInternal and markLeaseIrrevocable; Stop and StopNamespace, which drop tracking by design); " +
 			"(13) the expiry timer is armed / reset with time.Until(le.ExpireTime); " +
-			"(14) Register's deferred rollback, armed before persistEntry, deletes the stored lease whenever Register fails. Throughout, a call is located by its resolved callee: written directly, made through a bound method value, or made on every path by a closure of the function / an unexported helper of the package (arguments are followed back through captured variables and parameters); what cannot be followed is reported as undecided.",
+			"(14) Register's deferred rollback, armed before persistEntry, deletes the stored lease whenever Register fails; (15) TokenStore.handleCreateCommon bounds the new token by parseAndMergeTTLPeriod's results (result 0: the merged explicit maximum, result 1: the merged period — the merge itself is (10)): they are what CalculateTTL is given, the only values besides CalculateTTL's result written to the created entry's TTL, what the token's Auth advertises, and with a positive merged maximum a token whose TTL is 0 does not reach TokenStore.create without one of them having been written to its TTL. Throughout, a call is located by its resolved callee: written directly, made through a bound method value, or made on every path by a closure of the function / an unexported helper of the package (arguments are followed back through captured variables and parameters); what cannot be followed is reported as undecided.",
 		NotDecided: "the numeric bound itself (arithmetic over time.Duration inside CalculateTTL beyond the structural hard-stop clauses); periodic-token capping arithmetic; tracking after a crash at an arbitrary write prefix; clock behaviour.",
 		Run:        runC05,
 	})
